@@ -13,7 +13,7 @@ pub struct LeafPlan {
 pub enum Shape {
     Flat { fam: Family, cont: Cont, n: usize },
     Nested { kind: u32 },
-    Group { stream: bool, keyed: bool, cap: Option<usize>, ops: u32 },
+    Group { stream: bool, keyed: bool, cap: Option<usize>, ops: u32, from_iter: usize, burst: usize },
     Co { spec: crate::costream::CoSpec },
 }
 
@@ -51,11 +51,13 @@ impl Plan {
         match &self.shape {
             Shape::Flat { fam, cont, n } => format!("{} over {} of {} children", fam.name(), cont.name(), n),
             Shape::Nested { kind } => format!("nested shape {}", crate::nested::name(*kind)),
-            Shape::Group { stream, keyed, cap, ops } => format!(
-                "{}{} cap={:?} with {} scheduled operations",
+            Shape::Group { stream, keyed, cap, ops, from_iter, burst } => format!(
+                "{}{} cap={:?} from_iter={} burst={} with {} scheduled operations",
                 if *stream { "StreamGroup" } else { "FutureGroup" },
                 if *keyed { ".keyed()" } else { "" },
                 cap,
+                from_iter,
+                burst,
                 ops
             ),
             Shape::Co { spec } => spec.describe(),
